@@ -5,7 +5,11 @@ only with public constructors/setters - are handed to x86 Assembler / Builder / 
 with returning, recording and throwing error handlers. For every call the driver records what changed; failures
 must change nothing and invoke the handler exactly once, successes are sent to the C01 oracles, and probe programs
 emitted in between and at the end must equal a fresh emitter's output. A second driver (drv_api14) interleaves
-valid and invalid label/section/alignment/data API calls."""
+valid and invalid label/section/alignment/data API calls on an Assembler, and hands labels that do not exist in the attached
+CodeHolder (kInvalidId, label_count()+k, 0xFFFFFFFE, a label of another CodeHolder, an already bound label) to every
+label-taking entry point of Assembler, Builder and Compiler (x86 and AArch64) in the middle of valid call streams: refused,
+handler called once (also when it throws), node list / cursor / bytes / counts untouched, finalized output equal to a twin
+emitter that never got the invalid calls."""
 import collections
 import json
 import multiprocessing
@@ -376,27 +380,37 @@ def run(tier, args):
         samples += o["samples"][:1]
         for key, what, line in o["viol"]:
             byk.setdefault(key, []).append((what, line))
-    # API misuse scripts
+    # API misuse scripts (Assembler) and label/section ARGUMENT probes (Assembler, Builder, Compiler with twins)
     api_n = 0
+    label_n = 0
+    api_jobs = []
     for mode in ("x64", "x86", "a64"):
         for rep in range(4 if tier == "quick" else 40):
-            rc, out, err = common.run_child([api_exe, "--arch", mode, "--seed", str(chk.seed * 1000 + rep), "--ops", str(int((3000 if tier == "quick" else 20000) * args.scale))], timeout=900)
-            rp = common.sanitizer_report(err)
-            if rc != 0 or rp:
-                top = "?"
-                if rp:
-                    top = next((fr for fr in rp["frames"] if "asmjit" in fr), "?").split("(")[0].split(" /")[0][:90]
-                byk.setdefault("api:sanitizer:%s:%s" % ((rp or {"kind": "crash rc=%d" % rc})["kind"].split(" on ")[0][:60], top), []).append(
-                    ("API misuse script crashed (%s seed %d): %s" % (mode, chk.seed * 1000 + rep, rp), "%s %d" % (mode, chk.seed * 1000 + rep)))
-                continue
-            res = json.loads(out.decode().strip().splitlines()[-1])
-            api_n += res["ops"]
-            for k, v in res["by_api"].items():
-                stats["api_" + k] += v
-            for v in res["violations"]:
-                byk.setdefault("api:" + v["key"], []).append((v["what"], "%s %d" % (mode, chk.seed * 1000 + rep)))
-            for d in res["distinct"]:
-                distinct.add("api:" + d)
+            sd = str(chk.seed * 1000 + rep)
+            api_jobs.append((mode, [api_exe, "--arch", mode, "--seed", sd, "--ops", str(int((3000 if tier == "quick" else 20000) * args.scale))]))
+            api_jobs.append((mode, [api_exe, "--arch", mode, "--seed", sd, "--ops", "0", "--label-steps", "90",
+                                    "--label-scenarios", str(max(3, int((1500 if tier == "quick" else 6000) * args.scale)))]))
+    api_outs = common.parallel_map(lambda j: common.run_child(j[1], timeout=900), api_jobs)
+    for (mode, argv), (rc, out, err) in zip(api_jobs, api_outs):
+        case = " ".join(argv[1:])
+        rp = common.sanitizer_report(err)
+        if rc != 0 or rp:
+            top = "?"
+            if rp:
+                top = next((fr for fr in rp["frames"] if "asmjit" in fr), "?").split("(")[0].split(" /")[0][:90]
+            byk.setdefault("api:sanitizer:%s:%s" % ((rp or {"kind": "crash rc=%d" % rc})["kind"].split(" on ")[0][:60], top), []).append(
+                ("API misuse script crashed (%s): %s" % (case, rp), case))
+            continue
+        res = json.loads(out.decode().strip().splitlines()[-1])
+        api_n += res["ops"]
+        for k, v in res["by_api"].items():
+            stats["api_" + k] += v
+        label_n += res["by_api"].get("lbl.outcome.refused", 0) + res["by_api"].get("lbl.outcome.deferred", 0) + res["by_api"].get("lbl.outcome.accepted", 0) + \
+            res["by_api"].get("lbl.deferred.finalize-runs", 0)
+        for v in res["violations"]:
+            byk.setdefault("api:" + v["key"], []).append((v["what"], case))
+        for d in res["distinct"]:
+            distinct.add("api:" + d)
     for key, lst in byk.items():
         chk.violation(key, lst[0][0] + (" [+%d more]" % (len(lst) - 1) if len(lst) > 1 else ""), {"cases": [l for _, l in lst[:20]]})
     # AArch64 half of the property: database forms with operand kinds kept and ids / lanes / shifts / immediates / offsets
@@ -407,15 +421,17 @@ def run(tier, args):
         "a64_refusal_sweep": a64cnt,
         "evaluations": n + api_n + a64cnt.get("a64_unencodable_cases", 0),
         "distinct_nontrivial": len(distinct),
-        "rule": "one evaluation = one public API call with generated (mostly invalid) input; distinct = failing calls by (emitter, error code, generator class, operand-kind signature) plus distinct (API, outcome) pairs of the misuse scripts; all counted cases are failing calls whose state deltas were checked",
+        "rule": "one evaluation = one public API call with generated (mostly invalid) input; distinct = failing calls by (emitter, error code, generator class, operand-kind signature) plus distinct (API, outcome) pairs of the misuse scripts and distinct (emitter, label-taking entry point, kind of non-existent label, outcome) of the label-argument probes; all counted cases are failing calls whose state deltas were checked",
         "samples": samples[:4],
         "emit_calls": n, "emit_failed": stats["failed"], "emit_succeeded": stats["succeeded"], "successes_judged_by_c01_oracles": stats["succeeded_judged"],
         "probe_programs_compared": stats["probes"], "builder_finalize_errors": stats["finalize_errors"],
-        "api_script_calls": api_n, "api_calls_by_kind": {k[4:]: v for k, v in stats.items() if k.startswith("api_")},
+        "api_script_calls": api_n, "label_argument_calls": label_n, "label_scenarios": stats["api_lbl.scenarios"], "label_twins_compared": stats["api_lbl.twins-compared"],
+        "label_twin_finalize_failed": stats["api_lbl.twin-finalize-failed"], "api_calls_by_kind": {k[4:]: v for k, v in stats.items() if k.startswith("api_")},
         "jobs": len(jobs),
     })
     chk.assumptions += [
         "arbitrary operand KINDS on x86 only (AArch64 has no operand validator); AArch64: every database form with kinds kept and values perturbed out of range (the sweep shared with C02) plus the label/section/align/data API misuse scripts",
         "label ids created by the harness for the call (L:1) are not counted as residue; Builder/Compiler use kValidateIntermediate",
+        "Builder/Compiler record embed_label / embed_label_delta / instructions / JumpAnnotation::add_label / invoke: a non-existent label id in such a node may be accepted at the call (exactly one node, handler silent) - then finalize() must fail and report exactly once; bind, embed_const_pool, label_node_of, section, new_named_label(parent) must refuse at the call on every emitter",
     ]
     return chk.finish()
